@@ -1,6 +1,7 @@
 package c03
 
 import (
+	"regexp"
 	"bytes"
 	"encoding/json"
 	"mime/multipart"
@@ -485,7 +486,12 @@ func checkInner(c Case) (o pbt.Outcome) {
 		switch ref.Verdict {
 		case refmodel.Accept:
 			if !reached {
-				o.Fail("C03|rejects-valid|"+rejectClass(r.RespBody)+"|"+ck, "request satisfying the spec is answered %d and the handler is not run\n  request: %s\n  response: %s\n  params: %s", r.Status, pretty(rq.R), r.RespBody, paramsOf(opInfo))
+				// the server names the place it objects to; the kind of (still valid) request that met it is not part of the cause
+				where := "in:unknown"
+				if m := regexp.MustCompile(` in (body|query|header|path|formData)\b`).FindStringSubmatch(r.RespBody); m != nil {
+					where = "in:" + m[1]
+				}
+				o.Fail("C03|rejects-valid|"+rejectClass(r.RespBody)+"|"+where, "request satisfying the spec is answered %d and the handler is not run\n  request: %s\n  response: %s\n  params: %s", r.Status, pretty(rq.R), r.RespBody, paramsOf(opInfo))
 				continue
 			}
 			// values handed to the handler
